@@ -13,7 +13,7 @@ import contextlib
 import os
 import re
 
-from common import coq, Raw
+from common import coq
 
 PID = "C40"
 LEVEL_TEXT = ("Machine-checked proof (Coq, closed under the global context) over an executable model of "
@@ -315,25 +315,25 @@ CT = {"all": "CAll", "canonical": "CCanonical", "final": "CFinal", "host": "CHos
       "user": "CUser", "localuser": "CLocalUser"}
 
 
+def zs(s):
+    """A string as one Coq number: 0x01 followed by its bytes (decoded by `unz` in Model/C40.v)."""
+    return "0x01" + s.encode("utf-8").hex()
+
+
 def coq_body(body):
-    return "[" + ";".join("(%s,%s)" % (coq(k), coq(v)) for k, v in body) + "]"
+    return "[" + ";".join("(%s,%s)" % (zs(k), zs(v)) for k, v in body) + "]"
 
 
 def coq_blocks(cfg):
     out = []
     for b in cfg["blocks"]:
         if "host" in b:
-            hdr = "(HHost %s)" % coq(list(b["host"]))
+            hdr = "ZHost [%s]" % ";".join(zs(p) for p in b["host"])
         else:
-            hdr = "(HMatch [%s])" % ";".join("(Crit %s %s %s)" % (CT[t], coq(bool(neg)), coq(param))
-                                             for t, neg, param in b["match"])
-        out.append("(Blk %s %s)" % (hdr, coq_body(b["body"])))
+            hdr = "ZMatch [%s]" % ";".join("(%s,%s,%s)" % (CT[t], coq(bool(neg)), zs(param))
+                                           for t, neg, param in b["match"])
+        out.append("(%s, %s)" % (hdr, coq_body(b["body"])))
     return "[" + ";".join(out) + "]"
-
-
-def coq_lookup_case(envt, cfg, host):
-    return "((%s,%s,%s,%s), %s, %s, %s)" % (coq(envt[0]), coq(envt[1]), coq(envt[2]), coq(envt[3]),
-                                            coq_body(cfg["global"]), coq_blocks(cfg), coq(host))
 
 
 # ---------------------------------------------------------------------------------------------
@@ -407,33 +407,19 @@ def expected_static(cfg, host, envt):
     raw = {}
     skip = set()
     for b in app:
-        seen = set()
-        q = quirky_proxy(b["body"])
-        for k, v in b["body"]:
+        d = {}
+        for k, v in b["body"]:            # within a block: the first line for a key; list keys collect
             if k == "identityfile":
                 continue
-            if k in raw and k not in seen:
-                continue                                    # an earlier block already set it
-            if k == "proxycommand" and q:
-                if k not in raw:
-                    skip.add(k)
-                    raw[k] = None
-                seen.add(k)
-                continue
-            if k == "proxycommand" and v.lower() == "none":
-                if k not in raw:
-                    raw[k] = None
-                    seen.add(k)
-                continue
             if k in LIST_KEYS:
-                if k not in raw:
-                    raw[k] = []
-                    seen.add(k)
-                if k in seen:
-                    raw[k].append(unquote(v))
-            elif k not in raw:
-                raw[k] = unquote(v)
-                seen.add(k)
+                d.setdefault(k, []).append(unquote(v))
+            elif k not in d:
+                d[k] = None if (k == "proxycommand" and v.lower() == "none") else unquote(v)
+        for k, v in d.items():
+            if k not in raw:
+                raw[k] = v
+                if k == "proxycommand" and quirky_proxy(b["body"]):
+                    skip.add(k)
     ids = []
     for b in app:
         for k, v in b["body"]:
@@ -592,10 +578,8 @@ def run(ctx):
     ctx.assumptions += ["fragment: patterns without '[', ASCII text, no Match exec, no canonicalization / "
                         "AddressFamily keys, Match keywords in lower case"]
     ctx.prove(GENS)
-    n_cfg = 2600 if ctx.thorough else 330
-    lookup_cases = []       # (coq text, canon, info)
-    host_cases = []
-    glob_cases = []
+    n_cfg = 2000 if ctx.thorough else 200
+    cfg_cases = []          # (coq text, canon, info): one per config = get_hostnames + one lookup per host
     with pinned():
         todo = [(cfg, hosts, True) for cfg, hosts in DIRECTED]
         for i in range(n_cfg):
@@ -609,60 +593,57 @@ def run(ctx):
             hn = check_hostnames(ctx, cfg, text)
             ctx.count(("hostnames", text), nontrivial=bool(cfg["blocks"]),
                       kind="get_hostnames-with-match" if any("match" in b for b in cfg["blocks"]) else "get_hostnames")
+            canon = [-2]
             if hn is not None:
                 canon = []
                 for s in sorted(hn):
                     canon += enc_str(s)
-                host_cases.append(("(%s, %s)" % (coq_body(cfg["global"]), coq_blocks(cfg)), canon,
-                                   {"text": text, "config": cfg}))
+            canon = [len(canon)] + canon
+            impl = {"get_hostnames": sorted(hn) if hn is not None else None}
             for host in hosts:
                 got = check_case(ctx, cfg, text, host, envt)
                 ctx.count(("lookup", text, host, envt), nontrivial=bool(cfg["blocks"]),
                           kind="lookup-directed" if directed else "lookup-static" if stat else "lookup-dynamic")
-                if got is not None:
-                    lookup_cases.append((coq_lookup_case(envt, cfg, host), canon_options(got),
-                                         {"text": text, "host": host, "env": list(envt), "config": cfg, "impl": got}))
-                    if len(ctx.samples) < 2 and len(cfg["blocks"]) >= 2 and not directed:
-                        ctx.sample({"lookup": {"text": text, "host": host, "env": list(envt), "impl": got}})
+                r = canon_options(got) if got is not None else [-2]
+                canon += [len(r)] + r
+                impl[host] = got
+                if got is not None and len(ctx.samples) < 2 and len(cfg["blocks"]) >= 2 and not directed:
+                    ctx.sample({"lookup": {"text": text, "host": host, "env": list(envt), "impl": got}})
+            cfg_cases.append(("((%s,%s,%s,%s), %s, %s, [%s])" % (
+                zs(envt[0]), zs(envt[1]), zs(envt[2]), zs(envt[3]), coq_body(cfg["global"]), coq_blocks(cfg),
+                ";".join(zs(h) for h in hosts)), canon, {"text": text, "hosts": hosts, "env": list(envt), "impl": impl}))
         # fnmatch vs the glob matcher, _pattern_matches vs the model
         import fnmatch
         from paramiko.config import SSHConfig
         sc = SSHConfig()
         pm_cases = []
-        for _ in range(3000 if ctx.thorough else 500):
+        for _ in range(4000 if ctx.thorough else 500):
             h = gen_host(rng)
-            p = gen_pattern(rng, h if rng.random() < 0.8 else gen_host(rng), allow_neg=False)
+            ps = [gen_pattern(rng, h if rng.random() < 0.8 else gen_host(rng)) for _ in range(rng.choice([1, 2, 3, 4]))]
+            p = ps[0]
             r = fnmatch.fnmatch(h, p)
             ctx.count(("glob", p, h), kind="glob")
             if r != glob_match(p, h):
                 ctx.fail("fnmatch-differs", "fnmatch disagrees with the declarative glob meaning", case={"p": p, "h": h},
                          expected=glob_match(p, h), observed=r)
-            glob_cases.append(("(%s, %s)" % (coq(p), coq(h)), [1 if r else 0], (p, h)))
-            ps = [gen_pattern(rng, h) for _ in range(rng.choice([1, 2, 3, 4]))]
             r2 = bool(sc._pattern_matches(ps, h))
             ctx.count(("pm", tuple(ps), h), kind="pattern_matches")
             if r2 != patterns_apply(ps, h):
                 ctx.fail("host-block-applies", "a Host pattern list applies although no pattern matches or a negated "
                          "pattern matches (or vice versa)", case={"patterns": ps, "host": h},
                          expected=patterns_apply(ps, h), observed=r2)
-            pm_cases.append(("(%s, %s)" % (coq(ps), coq(h)), [1 if r2 else 0], (ps, h)))
+            pm_cases.append(("([%s], %s)" % (";".join(zs(p) for p in ps), zs(h)), [1 if r2 else 0, 1 if r else 0], (ps, h)))
 
-    bad = ctx.model_mismatches("run_lookup", "((list Z * list Z * list Z * list Z) * list (list Z * list Z) * list block * list Z)",
-                               [(c, e) for c, e, _ in lookup_cases], shard=60)
+    bad = ctx.model_mismatches(
+        "run_config_z", "((Z * Z * Z * Z) * list (Z * Z) * list (zhdr * list (Z * Z)) * list Z)",
+        [(c, e) for c, e, _ in cfg_cases], shard=40)
     for i in bad[:3]:
-        ctx.disagree("lookup differs from model", case={k: lookup_cases[i][2][k] for k in ("text", "host", "env")},
-                     impl=lookup_cases[i][2]["impl"])
-    bad = ctx.model_mismatches("run_hostnames", "(list (list Z * list Z) * list block)",
-                               [(c, e) for c, e, _ in host_cases], shard=100)
-    for i in bad[:3]:
-        ctx.disagree("get_hostnames differs from model", case=host_cases[i][2])
-    bad = ctx.model_mismatches("run_glob", "(list Z * list Z)", [(c, e) for c, e, _ in glob_cases], shard=500)
-    for i in bad[:3]:
-        ctx.disagree("fnmatch differs from Lib/Glob.v glob", case=glob_cases[i][2])
-    bad = ctx.model_mismatches("run_pattern_matches", "(list (list Z) * list Z)", [(c, e) for c, e, _ in pm_cases],
+        ctx.disagree("get_hostnames / lookup differ from the model", case={k: cfg_cases[i][2][k] for k in ("text", "hosts", "env")},
+                     impl=cfg_cases[i][2]["impl"])
+    bad = ctx.model_mismatches("run_match_z", "(list Z * Z)", [(c, e) for c, e, _ in pm_cases],
                                shard=500)
     for i in bad[:3]:
-        ctx.disagree("_pattern_matches differs from model", case=pm_cases[i][2])
+        ctx.disagree("_pattern_matches / fnmatch differ from the model", case=pm_cases[i][2])
 
 
 def replay(ctx, rep):
